@@ -2,7 +2,7 @@ from pyvc.cbase import Registry
 
 
 def build_registry():
-    from . import externs, expect, spawnbase, screen, ansi, utils, transports, lifecycle, readpath, pxssh
+    from . import externs, expect, spawnbase, screen, ansi, utils, transports, lifecycle, readpath, pxssh, run
     reg = Registry()
     externs.register(reg)
     spawnbase.register(reg)
@@ -14,4 +14,5 @@ def build_registry():
     lifecycle.register(reg)
     readpath.register(reg)
     pxssh.register(reg)
+    run.register(reg)
     return reg
